@@ -18,6 +18,7 @@ DHCP table.  `track`/`run` execute a history from a state.
 import AGH.Lemmas.ClientsHistory
 import AGH.Lemmas.ClientsSetIDs
 import AGH.Lemmas.ClientsPersist
+import AGH.Gen.C04Lookup
 namespace AGH.C04
 open AGH AGH.Bytes
 open AGH.C03 (IP Prefix inCIDR)
@@ -478,5 +479,72 @@ example :
   decide +kernel
 
 end examples
+
+/-! ## Translator tie: the precedence as the source states it (regenerated per run)
+
+`extract/cmd/c04` rewrites `Gen/C04Lookup.lean` from the typed syntax of
+`internal/client`: for every lookup function the lookup steps of its body in
+source order.  `C04_find_first_match` says what the model's `Storage.find` is —
+the FIRST identifier kind that yields a client, in the order ClientID, IP
+address (exact, then narrowest subnet), MAC, DHCP lease of the address — and
+`C04_T_lookup_order` says the current source walks the same steps in the same
+order. -/
+
+/-- The first result that is not "none" (a client or a crash ends the chain). -/
+def firstGot : List Got → Got
+  | [] => .none
+  | .none :: rest => firstGot rest
+  | g :: _ => g
+
+theorem firstGot_single (g : Got) : firstGot [g] = g := by cases g <;> rfl
+
+/-- `Storage.Find` is a first-match chain over the identifier kinds in the fixed
+order ClientID → IP address → MAC → MAC leased to the address. -/
+theorem C04_find_first_match (s : Storage) (id : IdStr) :
+    s.find id = firstGot
+      [ (s.index.findByClientID id.raw).got,
+        (match id.asIP with | some ip => (s.index.findByIP ip).got | none => .none),
+        (match id.asMAC with | some mac => s.findByMAC mac | none => .none),
+        (match id.asIP with | some ip => s.findByLease ip | none => .none) ] := by
+  unfold Storage.find
+  cases h1 : s.index.findByClientID id.raw <;> simp only [Look.got, firstGot]
+  cases hip : id.asIP with
+  | none =>
+    simp only [firstGot]
+    cases hm : id.asMAC with
+    | none => simp only [firstGot]
+    | some mac =>
+      simp only []
+      cases hg : s.findByMAC mac <;> simp only [firstGot]
+  | some ip =>
+    simp only []
+    cases h2 : s.index.findByIP ip <;> simp only [Look.got, firstGot]
+    cases hm : id.asMAC with
+    | none => simp only [firstGot, firstGot_single]
+    | some mac =>
+      simp only []
+      cases hg : s.findByMAC mac <;> simp only [firstGot, firstGot_single]
+
+/-- The current source performs the lookups in the order of the model:
+`index.find` tries the ClientID map, then (if the string parses as an address)
+the exact-address map followed by the subnet walk, then (if it parses as a
+MAC) the MAC map; `Storage.Find` adds the DHCP fallback after it, under the
+storage lock; `FindLoose` the zone-less comparison last. -/
+theorem C04_T_lookup_order :
+    Gen.C04.lookupSteps =
+      [ ("index.find", ["findByClientID", "ParseAddr", "findByIP", "ParseMAC", "findByMAC"]),
+        ("index.findByClientID", ["map:clientIDToUID", "map:uidToClient"]),
+        ("index.findByIP", ["map:ipToUID", "map:uidToClient", "WithZone", "Range", "Contains", "map:uidToClient"]),
+        ("index.findByMAC", ["macToKey", "map:macToUID", "map:uidToClient"]),
+        ("Storage.Find", ["find", "ParseAddr", "MACByIP", "FindByMAC"]),
+        ("Storage.FindLoose", ["find", "MACByIP", "FindByMAC", "findByIPWithoutZone"]),
+        ("Storage.FindByMAC", ["findByMAC"]) ] ∧
+      Gen.C04.findLocked = true ∧ Gen.C04.findLooseLocked = true ∧
+      Gen.C04.findByMACLocksItself = false := by
+  decide
+
+/-- non-vacuity: a ClientID match wins over an address match for the same string -/
+example (c : Client) : firstGot [.client c, .none] = .client c := rfl
+example (c : Client) : firstGot [.none, .none, .panic, .client c] = .panic := rfl
 
 end AGH.C04
